@@ -186,11 +186,11 @@ J gen_world(uint64_t seed, const J &opts)
 			for (int k = 0; k < ns && next < ncaches; k++)
 				ss.push(next++);
 			if (ss.size() == 0)
-				ss.push(0);
+				continue;
 			gr["sockets"] = ss;
 			groups.push(gr);
 		}
-		ncaches = next > 0 ? next : 1;
+		ncaches = (next > 0 ? next : 1) + (int)g.range(0, 2); // spare sockets for groups added at run time
 	} else {
 		J gr = J::obj();
 		gr["pref"] = 1;
@@ -374,6 +374,15 @@ J gen_world(uint64_t seed, const J &opts)
 				script.push(ex);
 			}
 		}
+		if (focus == "C15" && g.chance(600)) {
+			// outages that push groups into ERROR and back
+			J ex = J::obj();
+			if (g.chance(500))
+				ex["resp"] = "hangup";
+			ex["down_s"] = (long long)g.pick(std::vector<long long>{5, 90, 700, 5000});
+			size_t pos = script.size() ? (size_t)g.below(script.size() + 1) : 0;
+			script.a.insert(script.a.begin() + (long)pos, ex);
+		}
 		if (!bystander && focus == "C13") {
 			// version games at the start of the conversation and later
 			for (size_t i = 0; i < script.size(); i++) {
@@ -508,12 +517,68 @@ J gen_world(uint64_t seed, const J &opts)
 			t += (long long)g.below(3000000) + 1;
 		}
 	}
+	if (focus == "C15" || focus == "C17") {
+		J cases = J::arr();
+		int nc = (int)g.range(1, 4);
+		for (int i = 0; i < nc; i++) {
+			J cs = J::obj();
+			unsigned k = (unsigned)g.below(100);
+			if (focus == "C17" || k < 35) {
+				static const std::vector<long long> B = {0, 1, 2, 599, 600, 601, 7199, 7200, 7201, 86399, 86400, 86401, 172799, 172800, 172801, 4294967295ll};
+				cs["kind"] = "iv";
+				cs["refresh"] = g.chance(600) ? g.pick(B) : 3600;
+				cs["expire"] = g.chance(600) ? g.pick(B) : 7200;
+				cs["retry"] = g.chance(600) ? g.pick(B) : 600;
+			} else if (k < 50)
+				cs["kind"] = "empty";
+			else if (k < 70) {
+				cs["kind"] = "nosock";
+				cs["which"] = (long long)g.below(2);
+			} else if (k < 92) {
+				cs["kind"] = "duppref";
+				cs["p0"] = (long long)g.below(256);
+			} else
+				cs["kind"] = "one";
+			cases.push(cs);
+		}
+		plan["init_cases"] = cases;
+	}
+	if (focus == "C15") {
+		int nops = (int)g.range(0, 5);
+		long long t = 0;
+		std::vector<long long> prefs;
+		for (size_t i = 0; i < groups.size(); i++)
+			prefs.push_back(groups[i].geti("pref"));
+		int used = 0;
+		for (size_t i = 0; i < groups.size(); i++)
+			used += (int)groups[i]["sockets"].size();
+		for (int i = 0; i < nops; i++) {
+			t += (long long)g.pick(std::vector<long long>{0, 1, 500, 20000, 700000, 4000000});
+			J o = J::obj();
+			o["at_ms"] = t;
+			if (g.chance(500)) {
+				o["op"] = "addgroup";
+				long long pref = g.chance(350) && !prefs.empty() ? prefs[g.below(prefs.size())] : (long long)g.below(256);
+				o["pref"] = pref;
+				J ss = J::arr();
+				ss.push((long long)(used < ncaches ? used : (int)g.below((uint64_t)ncaches)));
+				if (used < ncaches)
+					used++;
+				o["sockets"] = ss;
+				prefs.push_back(pref);
+			} else {
+				o["op"] = "rmgroup";
+				o["pref"] = g.chance(750) && !prefs.empty() ? prefs[g.below(prefs.size())] : (long long)g.below(256);
+			}
+			oper.push(o);
+		}
+	}
 	plan["oper"] = oper;
 	if (focus == "C04")
 		plan["hostile"] = 1;
 	J end = J::obj();
-	end["mode"] = "converge";
-	end["max_s"] = 120ll * 86400ll;
+	end["mode"] = focus == "C15" ? "time" : "converge";
+	end["max_s"] = focus == "C15" ? g.pick(std::vector<long long>{300, 5000, 90000}) : 120ll * 86400ll;
 	plan["end"] = end;
 	return plan;
 }
